@@ -374,6 +374,11 @@ fn run_scenario_impl<'a, 'b: 'a>(get: &dyn Fn(usize) -> &'a Group<'b>, insts: &[
          }
       }
    }
+   {
+      let mut bases: Vec<String> = insts.iter().map(|i| i.base.clone()).collect();
+      bases.dedup();
+      set_current(bases, &Db::default(), Some(serde_json::to_string(insts).unwrap_or_default()));
+   }
    let barrier = Arc::new(Barrier::new(insts.len()));
    let entries: Vec<&crate::Entry> = insts.iter().map(|i| get(i.group).members[i.member].entry).collect();
    let results: Vec<Result<(Db, Db, Db), String>> = std::thread::scope(|s| {
